@@ -524,11 +524,20 @@ impl<H: Hal, T: Transport> VirtIOSound<H, T> {
         let mut head = 0;
         // The next element of `statuses` and `tokens` to use for popping the queue.
         let mut tail = 0;
+        // Set once the device has reported an error for a buffer. No more buffers are added after
+        // that, but the buffers still in the queue refer to `statuses` and `stream_id_bytes` on
+        // this stack frame, so they must all be popped before returning.
+        let mut failed = false;
 
         loop {
-            // Add as buffers to the TX queue if possible. 3 descriptors are required for the 2
-            // input buffers and 1 output buffer.
-            if self.tx_queue.available_desc() >= 3 {
+            if failed {
+                // Only wait for the buffers which are already in the queue.
+                if head == tail {
+                    break;
+                }
+            } else if self.tx_queue.available_desc() >= 3 {
+                // Add as buffers to the TX queue if possible. 3 descriptors are required for the 2
+                // input buffers and 1 output buffer.
                 if let Some(buffer) = remaining_buffers.next() {
                     // SAFETY: The buffers being added to the queue are non-empty and are not
                     // accessed before the corresponding call to `pop_used`.
@@ -562,7 +571,7 @@ impl<H: Hal, T: Transport> VirtIOSound<H, T> {
                     )?;
                 }
                 if statuses[tail].status != CommandCode::SOk.into() {
-                    return Err(Error::IoError);
+                    failed = true;
                 }
                 tail += 1;
                 if tail >= usize::from(QUEUE_SIZE) {
@@ -574,6 +583,9 @@ impl<H: Hal, T: Transport> VirtIOSound<H, T> {
             spin_loop();
         }
 
+        if failed {
+            return Err(Error::IoError);
+        }
         Ok(())
     }
 
